@@ -37,13 +37,15 @@ SINGLE = {"float64": "float32", "complex128": "complex64"}
 class DtNS:
     """Proxy of SymNS / NumNS: inputs and harness-made constants are created in the target precision."""
 
-    def __init__(self, S, single):
-        self._S, self._single = S, single
+    def __init__(self, S, single, mask_dtype=None):
+        self._S, self._single, self._mask_dtype = S, single, mask_dtype
 
     def _map(self, dtype):
         return SINGLE.get(str(dtype), str(dtype)) if self._single else str(dtype)
 
     def input(self, name, dims, dtype="float64", nonneg=False):
+        if name == "mask" and self._mask_dtype:
+            return self._S.input(name, dims, self._mask_dtype, nonneg)   # a mask in a context of its own (boolean, integer, double)
         return self._S.input(name, dims, self._map(dtype), nonneg)
 
     def ones(self, shape, dtype="float64"):
@@ -123,10 +125,10 @@ class DtOb(GOb):
         return True, f"monitor ok at {env}"
 
 
-def wrap(base, single):
+def wrap(base, single, mask_dtype=None):
     tag = "float32" if single else "float64"
     def setup(S):
-        I = base.setup(DtNS(S, single))
+        I = base.setup(DtNS(S, single, mask_dtype))
         return I
     def post(S, I, res):
         out = []
@@ -135,6 +137,8 @@ def wrap(base, single):
         for path, a in leaves(res):
             if any(f in base.function and path.startswith(pre) for f, pres in INDEX_OUTPUTS for pre in pres):
                 continue
+            if mask_dtype and isinstance(a, G.GTensor) and a.body is getattr(I.get("mask"), "body", None):
+                continue   # (the caller's mask itself, echoed by the harness)
             n += 1
             dt = dtype_name(a)
             sig.append(f"{path}:{dt}")
@@ -146,7 +150,7 @@ def wrap(base, single):
         if n == 0:
             out.append(("the result contains no array (vacuous)", 0, 1))
         return out
-    ob = DtOb(PID, f"{PID}/{tag}/" + base.name.split("/", 1)[1], base.function, setup, base.call, post, tenalg=base.tenalg, assumptions=base.assumptions,
+    ob = DtOb(PID, f"{PID}/{tag}" + (f",{mask_dtype} mask" if mask_dtype else "") + "/" + base.name.split("/", 1)[1], base.function, setup, base.call, post, tenalg=base.tenalg, assumptions=base.assumptions,
              side_nonzero=base.side_nonzero, instance=dict(base.instance, dtype=tag, source=base.pid), clause=f"every array of the result carries the {tag} context",
              forall=list(base.forall) + ["paths"], enumerated=list(base.enumerated) + ["dtype"])
     return ob
@@ -177,7 +181,8 @@ def obligations(tier):
             obs.append(wrap(ob, True))
             if tier != "quick":
                 obs.append(wrap(ob, False))
-    obs += solver_obligations(tier)
+
+    obs += solver_obligations(tier) + mask_obligations(tier)
     obs.append(bounded_obligation())
     return obs
 
@@ -236,6 +241,73 @@ def solver_obligations(tier):
             obs.append(GOb(PID, f"{PID}/{'float32' if single else 'float64'}/solvers.nnls:{name}/iterates and result keep the input precision[{tagn}]", f"tensorly.solvers.nnls:{name}", setup, call, post,
                            tenalg="core", instance=dict(dtype="float32" if single else "float64", **opts), clause="every iterate and the result carry the input precision",
                            forall=["sizes", "values", "paths"], enumerated=["options", "dtype"], side_nonzero=True))
+    return obs
+
+
+def mask_obligations(tier):
+    """a mask lives in a context of its own (boolean, integer, double): the masked decompositions keep the precision of the DATA - prefix, a sweep and the exits of
+    parafac, non_negative_parafac and partial_tucker, and the imputation loop of svd_interface, with float32 data and a mask tagged bool / int64 / float64"""
+    import tensorly.decomposition._cp as _cp
+    import tensorly.decomposition._nn_cp as _nn
+    import tensorly.decomposition._tucker as _tk
+    import tensorly.tenalg.svd as sv
+    from tensorly.cp_tensor import CPTensor
+    from ..symint import atom
+    from ..loopcut import LoopCut
+    from ..iterative import stubbed, make_svd_stub, real_dtype
+    obs = []
+    R = atom("R")
+    n = [atom(f"n{k}") for k in range(3)]
+    def post(S, I, res):
+        out, cnt = [], 0
+        for path, a in leaves(res):
+            cnt += 1
+            if not allowed(dtype_name(a), True):
+                out.append((f"{path} has dtype {dtype_name(a)}, the data are float32", 0, 1))
+        out.append((f"{cnt} arrays of the state after the sweep and of the result, all float32", int(cnt >= 1), 1))
+        return out
+    for md in ("bool", "int64", "float64"):
+        def setup(S, md=md):
+            D_ = DtNS(S, True, md)
+            return dict(_S=S, X=D_.input("X", n), mask=D_.input("mask", n), fs=[D_.input(f"U{k}", [n[k], R]) for k in range(3)], core=D_.input("G", [R, R, R]), M=D_.input("M", n[:2]), mask2=DtNS(S, True, md).input("mask", n[:2]))
+        for fn, func, module in (("_cp:parafac", _cp.parafac, _cp), ("_nn_cp:non_negative_parafac", _nn.non_negative_parafac, _nn)):
+            def call(I, func=func, module=module):
+                S = I["_S"]
+                if S.name != "sym":
+                    return func(I["X"], I["fs"][0].shape[1], n_iter_max=2, mask=I["mask"], init=(None, [f.copy() for f in I["fs"]]))
+                cut = LoopCut(func)
+                with stubbed(module, initialize_cp=lambda *a, **k: CPTensor((None, list(I["fs"])))):
+                    st = cut.prefix(I["X"], R, mask=I["mask"], return_errors=True)
+                    st["factors"] = list(st["factors"])
+                    kind, st2 = cut.body(st, 0)
+                    ret = cut.suffix(st2)
+                return dict(state={k: v for k, v in st2.items() if k in ("weights", "factors", "tensor", "rec_errors")}, ret=ret)
+            obs.append(GOb(PID, f"{PID}/float32,{md} mask/{fn}/the data precision is kept through a masked sweep", f"tensorly.decomposition.{fn}", setup, call, post, tenalg="core",
+                           instance=dict(dtype="float32", mask_dtype=md), clause="a mask of another dtype does not change the precision of the results", forall=["sizes", "rank", "values", "paths"], enumerated=["mask dtype"], side_nonzero=True))
+        def tk_call(I):
+            S = I["_S"]
+            if S.name != "sym":
+                r_ = I["core"].shape[0]
+                return _tk.partial_tucker(I["X"], [r_] * 3, n_iter_max=2, mask=I["mask"], init=(I["core"].copy(), [np.linalg.qr(f)[0].astype(f.dtype) for f in I["fs"]]))
+            cut = LoopCut(_tk.partial_tucker)
+            with stubbed(_tk, initialize_tucker=lambda *a, **k: (I["core"], list(I["fs"])), svd_interface=make_svd_stub(S, None)):
+                st = cut.prefix(I["X"], [R, R, R], mask=I["mask"])
+                st["factors"] = list(st["factors"])
+                kind, st2 = cut.body(st, 0)
+                ret = cut.suffix(st2)
+            return dict(state={k: v for k, v in st2.items() if k in ("core", "factors", "tensor", "rec_errors")}, ret=ret)
+        obs.append(GOb(PID, f"{PID}/float32,{md} mask/_tucker:partial_tucker/the data precision is kept through a masked sweep", "tensorly.decomposition._tucker:partial_tucker", setup, tk_call, post, tenalg="core",
+                       instance=dict(dtype="float32", mask_dtype=md), clause="a mask of another dtype does not change the precision of the results", forall=["sizes", "rank", "values", "paths"], enumerated=["mask dtype"],
+                       assumptions=lambda I: [R <= x for x in n]))
+        def si_call(I):
+            S = I["_S"]
+            def method(matrix, n_eigenvecs=None, **kw):
+                if S.name != "sym":
+                    return sv.truncated_svd(matrix, n_eigenvecs=n_eigenvecs)
+                return (G.opaque_tensor("MU", [matrix.shape[0], n_eigenvecs], matrix.dtype), G.opaque_tensor("MS", [n_eigenvecs], real_dtype(matrix)), G.opaque_tensor("MV", [n_eigenvecs, matrix.shape[1]], matrix.dtype))
+            return sv.svd_interface(I["M"], method=method, n_eigenvecs=2, mask=I["mask2"], n_iter_mask_imputation=2, flip_sign=False)
+        obs.append(GOb(PID, f"{PID}/float32,{md} mask/tenalg.svd:svd_interface/the data precision is kept through the imputation loop", "tensorly.tenalg.svd:svd_interface", setup, si_call, post, tenalg="core",
+                       instance=dict(dtype="float32", mask_dtype=md), clause="a mask of another dtype does not change the precision of the results", forall=["sizes", "values"], enumerated=["mask dtype"]))
     return obs
 
 
